@@ -499,6 +499,18 @@ func checkC03(c *Ctx) {
 		}
 	}
 
+	// ---- C03.9 a probe cannot take the process (and with it every open connection) down through the prefix table: every
+	// default prefix keeps Offset == len(static match) and MinLen == MaxLen == Offset + tag, so the tag slice the length
+	// test admits is inside the buffer (shared with C04.3)
+	r.Rule("C03.9", "prefix table: offsets and length thresholds agree for every default prefix", 10)
+	checkPrefixTableAs(c, "C03.9")
+
+	// ---- C03.10 nothing the handler calls before it reads can wedge on the registry lock: no acquisition of a station
+	// mutex while it may already be held (sync.RWMutex: a second RLock behind a waiting writer never returns; the
+	// handler then neither reads the probe nor closes it). Shared with C09.6.
+	r.Rule("C03.10", "no re-entrant acquisition of a mutex in the station library", 10)
+	checkNoReentrancy(r, "C03.10", c.funcsOfPkgs("pkg/station/lib"), nil)
+
 	// ---- C03.8 the handler turns a peer away before the deadline is armed only when an address lookup FAILED; what a
 	// lookup says about the address (no record, reserved AS number, unknown country) is an answer, not a failure -
 	// otherwise every peer from an address the databases do not cover is closed at once, whatever it sends
